@@ -358,7 +358,16 @@ func genTailRec(r *common.Rand, mutate bool) (string, map[string]bool) {
 		}
 	}
 	body := g.tail(r.Range(1, 3), "f", nil, inner, true)
-	q := fmt.Sprintf("def f: %sif . >= %s then . else %s end; 0 | f", innerDef, bigN, body)
+	// the calling context: the loop must stay bounded whether or not the caller's frame has a
+	// backtrack point pending below the loop's frame (array collection, comma, reduce source,
+	// try, alternative, iteration with elements left, label, object value, binding)
+	call := "0 | f"
+	if r.Chance(2, 3) {
+		cx := common.Pick(r, []string{"[%s]", "(%s), 1", "reduce (%s) as $v (0; $v)", "try (%s) catch .", "(%s) // 1", "[1, 2][] | %s", "label $l | %s", "{a: (%s)}", "5 as $z | %s", "[(%s), 2]", "foreach (%s) as $v (0; $v)", "(%s)?", "[[1][] | %s]", "1 | (%s, 2)"})
+		g.feats["context:"+cx] = true
+		call = fmt.Sprintf(cx, call)
+	}
+	q := fmt.Sprintf("def f: %sif . >= %s then . else %s end; %s", innerDef, bigN, body, call)
 	return q, g.feats
 }
 
